@@ -10,7 +10,8 @@ package main
 //   0 totalSupply  1 senderFee  2 receiverFee  3 retMode  4 logMode  5 balMode  6 lie  7 lieAddr  8 lieStep  9 fakeCredit
 // retMode: 0 return true, 1 return false (after moving), 2 revert, 3 return no data, 4 return the word 2
 // logMode: 0 Transfer, 1 Approval then Transfer, 2 anonymous LOG0 then Transfer, 3 no log
-// balMode: 0 report, 1 revert, 2 return no data;  balanceOf(lieAddr) reports balance+lie and then lie += lieStep
+// balMode: 0 report, 1 revert, 2 return no data, 3 revert for lieAddr only (every other holder is reported);
+//          balanceOf(lieAddr) reports balance+lie and then lie += lieStep
 // fakeCredit != 0: transfer moves nothing but lie += amount
 // Methods: balanceOf, transfer, totalSupply, name, symbol, decimals, set(uint256 slot,uint256 value) [0x5eed0001],
 // kill() [0x5eed0002] (SELFDESTRUCT).
@@ -140,6 +141,9 @@ func advTokenCode() []byte {
 	a.push(5).op(opSLOAD)
 	a.op(opDUP1).push(1).op(opEQ).jumpi("revert")
 	a.op(opDUP1).push(2).op(opEQ).jumpi("retempty")
+	a.op(opDUP1).push(3).op(opEQ, opISZERO).jumpi("bo_report")
+	a.push(4).op(opCALLDATALOAD).push(7).op(opSLOAD, opEQ).jumpi("revert") // mode 3 and a == lieAddr
+	a.label("bo_report")
 	a.op(opPOP)
 	a.push(4).op(opCALLDATALOAD) // [a]
 	a.op(opDUP1, opSLOAD, opSWAP1) // [a, bal]
